@@ -353,3 +353,176 @@ class WFX(WfSpec):
 
 
 SPECS = {s.name: s for s in (FCHK(), MOLDEN(), MOLEKEL(), WFN(), WFX())}
+
+
+class JSON(Spec):
+    """QCSchema JSON (selected with fmt='json_qcschema'; no file-name pattern)."""
+
+    name = "json_qcschema"
+    fname = "m.json"
+    fmt = "json_qcschema"
+    space = [
+        ("schema", ["qcschema_molecule", "qcschema_input", "qcschema_output"]),
+        ("natom", [3, 1, 10]),
+        ("charge", [0, 1, -1.0, 0.5]),
+        ("spinpol", [0, 1, 2]),
+        ("title", [None, "water molecule"]),
+        ("atmasses", [False, True]),
+        ("bonds", ["none", "few", "chain"]),
+        ("g_rot", [None, 2]),
+        ("ghost", [False, True]),
+        ("molecule_extra", ["empty", "comment+labels", "identifiers", "fix_com+orientation", "extras-nested", "fragments", "id+validated", "no-molecule-dict"]),
+        ("provenance", ["absent", "dict", "list"]),
+        ("input_extra", ["minimal", "keywords", "protocols", "extras+id", "no-basis-name"]),
+        ("driver", ["energy", "gradient", "hessian", "properties"]),
+        ("output_extra", ["minimal", "stdout", "stderr", "stdout+stderr", "error", "energy-attribute"]),
+    ]
+
+    def build(self, case, seed):
+        from iodata import IOData
+
+        n = case["natom"]
+        z = fmtspecs.elements("OHH", n, seed)
+        xyz = fmtspecs.coords_angstrom("small", n, seed) * units.angstrom
+        kw = dict(atnums=z, atcoords=xyz, charge=case["charge"], spinpol=case["spinpol"])
+        if case["title"]:
+            kw["title"] = case["title"]
+        if case["atmasses"]:
+            kw["atmasses"] = np.array([15.999, 1.008, 2.014][: min(n, 3)] + [1.008] * max(0, n - 3))
+        if case["bonds"] != "none" and n > 1:
+            kw["bonds"] = fmtspecs.bonds_menu(case["bonds"], n, [1, 2])
+        if case["g_rot"]:
+            kw["g_rot"] = case["g_rot"]
+        if case["ghost"] and n > 1:
+            cores = z.astype(float)
+            cores[-1] = 0.0
+            kw["atcorenums"] = cores
+        mol = {}
+        me = case["molecule_extra"]
+        if me == "comment+labels":
+            mol = {"comment": "a comment", "atom_labels": [f"L{i}" for i in range(n)]}
+        elif me == "identifiers":
+            mol = {"identifiers": {"molecular_formula": "H2O", "smiles": "O"}}
+        elif me == "fix_com+orientation":
+            mol = {"fix_com": True, "fix_orientation": False}
+        elif me == "extras-nested":
+            mol = {"extras": {"a": {"b": [1, 2, {"c": 3.5}]}, "tag": "x"}}
+        elif me == "fragments" and n >= 3:
+            mol = {"fragments": {"indices": [np.array([0, 1]), np.array(list(range(2, n)))], "charges": np.array([0.0, float(case["charge"])]), "multiplicities": np.array([1, case["spinpol"] + 1])}}
+        elif me == "id+validated":
+            mol = {"id": "mol-1", "qcel_validated": True}
+        prov = {"creator": "verif", "version": "1.0", "routine": "gen"}
+        if case["provenance"] == "dict":
+            mol["provenance"] = dict(prov)
+        elif case["provenance"] == "list":
+            mol["provenance"] = [dict(prov), {"creator": "other", "version": "2", "routine": "r"}]
+        extra = {"schema_name": case["schema"]}
+        if me != "no-molecule-dict":
+            extra["molecule"] = mol
+        if case["schema"] in ("qcschema_input", "qcschema_output"):
+            inp = {"driver": case["driver"], "model": {}}
+            ie = case["input_extra"]
+            if ie == "keywords":
+                inp["keywords"] = {"scf_type": "df", "maxiter": 50, "nested": {"x": [1, 2]}}
+            elif ie == "protocols":
+                inp["protocols"] = {"keep_wavefunction": "all", "keep_stdout": True}
+            elif ie == "extras+id":
+                inp["extras"] = {"note": "n"}
+                inp["id"] = "inp-7"
+            if case["provenance"] == "dict":
+                inp["provenance"] = dict(prov)
+            elif case["provenance"] == "list":
+                inp["provenance"] = [dict(prov)]
+            extra["input"] = inp
+            kw["lot"] = "B3LYP"
+            if ie != "no-basis-name":
+                kw["obasis_name"] = "cc-pVDZ"
+        if case["schema"] == "qcschema_output":
+            out = {"properties": {"scf_total_energy": -76.0125, "calcinfo_nbasis": 24}, "return_result": -76.0125 if case["driver"] == "energy" else [0.125, -0.25, 0.5]}
+            oe = case["output_extra"]
+            if "stdout" in oe:
+                out["stdout"] = "standard output text"
+            if "stderr" in oe:
+                out["stderr"] = "standard error text"
+            if oe == "error":
+                out["error"] = {"error_type": "convergence_error", "error_message": "did not converge"}
+            if oe == "energy-attribute":
+                kw["energy"] = -76.5
+            extra["output"] = out
+        kw["extra"] = extra
+        return IOData(**kw), {}, {}
+
+    def refusal_allowed(self, case):
+        return False
+
+    def compare(self, o, b, case, d):
+        d.exact("atnums", o.atnums, b.atnums)
+        d.close("atcoords", o.atcoords, b.atcoords, abs_tol=0.0)
+        d.close("atcorenums", o.atcorenums, b.atcorenums, abs_tol=0.0)
+        d.close("charge", o.charge, b.charge, abs_tol=1e-12)
+        d.close("spinpol", o.spinpol, b.spinpol, abs_tol=0.0)
+        if o.title:
+            d.exact("title", o.title, b.title)
+        if o.atmasses is not None:
+            d.close("atmasses", o.atmasses, b.atmasses, abs_tol=0.0)
+        if o.bonds is not None:
+            d.exact("bonds", o.bonds, [] if b.bonds is None else b.bonds)
+        if o.g_rot:
+            d.exact("g_rot", o.g_rot, b.g_rot)
+        bm = b.extra.get("molecule", {})
+        for k, v in o.extra.get("molecule", {}).items():
+            if k == "provenance":
+                continue
+            if k == "fragments":
+                got = bm.get("fragments", {})
+                d.exact("extra[molecule][fragments][indices]", repr([x.tolist() for x in v["indices"]]), repr([np.asarray(x).tolist() for x in got.get("indices", [])]))
+                d.exact("extra[molecule][fragments][charges]", v["charges"], got.get("charges", []))
+                d.exact("extra[molecule][fragments][multiplicities]", v["multiplicities"], got.get("multiplicities", []))
+            else:
+                d.exact(f"extra[molecule][{k}]", repr(v), repr(bm.get(k)))
+        if case["schema"] != "qcschema_molecule":
+            bi = b.extra.get("input", {})
+            d.exact("extra[input][driver]", o.extra["input"]["driver"], bi.get("driver"))
+            for k in ("keywords", "protocols", "extras", "id"):
+                if k in o.extra["input"]:
+                    d.exact(f"extra[input][{k}]", repr(o.extra["input"][k]), repr(bi.get(k)))
+            d.exact("lot", o.lot, b.lot)
+            if o.obasis_name is not None:
+                d.exact("obasis_name", o.obasis_name, b.obasis_name)
+        if case["schema"] == "qcschema_output":
+            bo = b.extra.get("output", {})
+            for k in ("stdout", "stderr", "error", "return_result"):
+                if k in o.extra["output"]:
+                    d.exact(f"extra[output][{k}]", repr(o.extra["output"][k]), repr(bo.get(k)))
+            if o.energy is not None:
+                d.close("energy", o.energy, b.energy, abs_tol=0.0)
+
+    @staticmethod
+    def cycle_filter(snap):
+        """Documented exception of C15: the provenance trail grows by design; drop it from the comparison."""
+        def strip(x):
+            if isinstance(x, tuple) and x and x[0] == "d":
+                return ("d", tuple((k, strip(v)) for k, v in x[1] if k != "'provenance'"))
+            if isinstance(x, tuple) and x and x[0] in ("l", "t"):
+                return (x[0], tuple(strip(v) for v in x[1]))
+            if isinstance(x, tuple) and x and x[0] == "o":
+                return ("o", x[1], tuple((k, strip(v)) for k, v in x[2]))
+            return x
+
+        return strip(snap)
+
+    @staticmethod
+    def file_filter(data: bytes):
+        import json
+
+        def strip(x):
+            if isinstance(x, dict):
+                return {k: strip(v) for k, v in x.items() if k != "provenance"}
+            if isinstance(x, list):
+                return [strip(v) for v in x]
+            return x
+
+        return json.dumps(strip(json.loads(data)), sort_keys=False).encode()
+
+
+SPECS["json_qcschema"] = JSON()
